@@ -17,6 +17,11 @@ for c in conflicts:
         continue
     if c.startswith('evidence/') or c == 'harness/Cargo.lock':
         sh('git', 'checkout', '--ours', c); sh('git', 'add', c)
+    elif c == 'harness/src/main.rs':
+        import re as _re
+        t = open('/verif/' + c).read()
+        t = _re.sub(r'<<<<<<< HEAD\n(.*?)=======\n(.*?)>>>>>>> [^\n]+\n', lambda m: m.group(1) + m.group(2), t, flags=_re.S)
+        open('/verif/' + c, 'w').write(t); sh('git', 'add', c)
     else:
         print('UNRESOLVED CONFLICT:', c)
 # union of findings; property-scoped ids for ids beyond F24
